@@ -212,6 +212,24 @@ inline std::string hex(const std::string& s) {
   return r;
 }
 
+// The prefix word of an inner node holds up to 7 prefix bytes and, in its top
+// byte, the prefix length.  Bytes at positions >= length are stale: they are
+// never read (every reader clamps or masks by the length: shared_len,
+// key_prefix_snapshot, operator[]) and never become live again (cut shifts
+// them further out, the (len, source) constructor only shortens, prepend masks
+// both operands by their lengths).  The state identity therefore keeps the
+// live bytes only, unless g_full_prefix_word is set (used by one small
+// thorough universe that cross-checks this argument).
+inline bool g_full_prefix_word = false;
+
+inline std::uint64_t live_prefix_word(std::uint64_t w) {
+  if (g_full_prefix_word) return w;
+  const unsigned len = static_cast<unsigned>(w >> 56U);
+  if (len >= 7) return w;
+  const std::uint64_t mask = (std::uint64_t{1} << (8U * len)) - 1U;
+  return (w & mask) | (static_cast<std::uint64_t>(len) << 56U);
+}
+
 // physical dump: everything behaviour can depend on, addresses abstracted
 inline void phys_dump(const Tree& t, int idx, std::string& out) {
   if (idx < 0) {
@@ -226,7 +244,7 @@ inline void phys_dump(const Tree& t, int idx, std::string& out) {
   static const char* names[] = {"L", "I4", "I16", "I48", "I256"};
   char buf[40];
   std::snprintf(buf, sizeof buf, "%s[%016llx;", names[n.type],
-                static_cast<unsigned long long>(n.prefix_word));
+                static_cast<unsigned long long>(live_prefix_word(n.prefix_word)));
   out += buf;
   out += n.phys;
   out += ";";
